@@ -19,6 +19,9 @@ impl Tally {
     fn wrong(&mut self, input: &str, what: &str) { self.bad += 1; if self.bad <= 8 { println!("WITNESS {} :: {} :: {}", self.name, input, what); } }
     fn done(&self) { println!("SUMMARY {} cases={} disagreements={}", self.name, self.cases, self.bad); }
 }
+/*  a panic of the code under test is a finding, not a harness failure */
+fn guard<T>(f: impl FnOnce() -> T) -> Option<T> { std::panic::catch_unwind(std::panic::AssertUnwindSafe(f)).ok() }
+fn quiet() { std::panic::set_hook(Box::new(|_| {})); }
 struct Lcg(u64);
 impl Lcg { fn next(&mut self) -> u64 { self.0 = self.0.wrapping_mul(6364136223846793005).wrapping_add(1442695040888963407); self.0 >> 11 } }
 
@@ -63,6 +66,7 @@ fn ref_decode(s: &str) -> Option<[u8; 32]>
 #[test]
 fn verif_pure_text_form()
 {
+    quiet();
     let mut t = Tally::new("B-A-text-form");
     let mut values : Vec<[u8; 32]> = vec![[0u8; 32], [255u8; 32]];
     for i in 0..32 { let mut v = [0u8; 32]; v[i] = 1; values.push(v); let mut w = [255u8; 32]; w[i] = 0; values.push(w); let mut x = [0u8; 32]; x[i] = 61; values.push(x); x[i] = 62; values.push(x); }
@@ -102,7 +106,8 @@ fn verif_pure_text_form()
     {
         t.case();
         let want = ref_decode(s);
-        match (Ticket::from_human_readable(s), want)
+        let got = match guard(|| Ticket::from_human_readable(s)) { Some(g) => g, None => { t.wrong(s, "from_human_readable PANICKED"); continue; } };
+        match (got, want)
         {
             (Ok(tk), Some(_)) => { if tk.human_readable() != *s { t.wrong(s, "accepted string does not re-encode to itself"); } },
             (Ok(_), None) => t.wrong(s, "accepted although it is not the text form of any 256-bit value"),
@@ -117,6 +122,7 @@ fn verif_pure_text_form()
 #[test]
 fn verif_pure_file_hash()
 {
+    quiet();
     let mut t = Tally::new("B-A-file-hash");
     let mut system = FakeSystem::new(10);
     let mut sizes : Vec<usize> = (0..=40).collect();
@@ -144,6 +150,7 @@ fn sv(v: &[&str]) -> Vec<String> { v.iter().map(|s| s.to_string()).collect() }
 #[test]
 fn verif_pure_rule_identity()
 {
+    quiet();
     let mut t = Tally::new("B-B-rule-identity");
     /*  a small universe of parser-producible rules, including adversarial near-misses */
     let lists : Vec<Vec<String>> = vec![sv(&["a"]), sv(&["ab"]), sv(&["a", "b"]), sv(&["b", "a"]), sv(&["a", "bc"]), sv(&["ab", "c"]), sv(&["a:", "b"]), sv(&["a", ":b"]), sv(&["a b"]), sv(&["a", "b", "c"])];
@@ -205,6 +212,7 @@ fn ref_parse(lines: &Vec<String>) -> Result<usize, String>
 #[test]
 fn verif_pure_parser()
 {
+    quiet();
     let mut t = Tally::new("B-P-parse-state-machine");
     let tokens = ["", ":", "a", "b", "\tc", "x y"];
     for len in 0..=6usize
@@ -218,7 +226,8 @@ fn verif_pure_parser()
             let text = lines.join("\n");
             let split : Vec<String> = text.split('\n').map(|s| s.to_string()).collect();
             let want = ref_parse(&split);
-            let got = match parse("f.rules".to_string(), text.clone())
+            let parsed = match guard(|| parse("f.rules".to_string(), text.clone())) { Some(p) => p, None => { t.wrong(&format!("{:?}", text), "parse PANICKED"); continue; } };
+            let got = match parsed
             {
                 Ok(rs) => Ok(rs.len()),
                 Err(ParseError::UnexpectedEmptyLine(f, n)) => Err(format!("EmptyLine@{}{}", n, if f == "f.rules" { "" } else { " wrong file" })),
@@ -279,6 +288,7 @@ fn ref_bundle(lines: &Vec<&str>) -> Option<Vec<String>>
 #[test]
 fn verif_pure_bundle()
 {
+    quiet();
     let mut t = Tally::new("B-P-bundle-meaning");
     let tokens = ["gen", "lib", "\tparser.c", "\tlexer.c", "\t\tdeep.c", "\tsub", ""];
     for len in 1..=5usize
@@ -290,7 +300,7 @@ fn verif_pure_bundle()
             for _ in 0..len { lines.push(tokens[c % tokens.len()]); c /= tokens.len(); }
             t.case();
             let want = ref_bundle(&lines);
-            let got = match PathBundle::parse_lines(lines.clone()) { Ok(b) => Some(b.get_path_strings('/')), Err(_) => None };
+            let got = match guard(|| match PathBundle::parse_lines(lines.clone()) { Ok(b) => Some(b.get_path_strings('/')), Err(_) => None }) { Some(g) => g, None => { t.wrong(&format!("{:?}", lines), "bundle parsing PANICKED"); continue; } };
             match (&want, &got)
             {
                 (Some(w), Some(g)) => { if g != w { t.wrong(&format!("{:?}", lines), &format!("paths {:?} expected {:?}", g, w)); } },
@@ -307,6 +317,7 @@ fn verif_pure_bundle()
 #[test]
 fn verif_pure_compare_insert()
 {
+    quiet();
     let mut t = Tally::new("B-D-compare-insert");
     let tk = |i: u8| TicketFactory::from_str(&format!("t{}", i)).result();
     for la in 0..4usize { for lb in 0..4usize {
